@@ -149,6 +149,11 @@ def tlc(module, cfg=None, args=(), timeout=1800, env=None, workers=None, outfile
     return out, gen, dist, rc
 
 
+def has_tlc_error(text):
+    """TLC's own errors start a line with 'Error:'; printed MISMATCH payloads (quoted strings) may contain the word."""
+    return any(ln.startswith('Error:') for ln in text.splitlines())
+
+
 def tlc_ok(out, rc):
     return rc == 0 and ('Model checking completed. No error has been found.' in out or 'Finished in' in out) and 'Error:' not in out
 
@@ -214,7 +219,7 @@ def validate_traces(module, shards, timeout=3000, cfg=None, extra_env=None):
             m = None
             for m in _COUNT.finditer(text):
                 pass
-            if m is None or 'Error:' in text or rc != 0:
+            if m is None or has_tlc_error(text) or rc != 0:
                 raise Infra('TLC failed on trace %s (rc=%s):\n%s' % (sh, rc, text[-3000:]))
             if int(m.group(2)) != nlines + 1:
                 raise Infra('trace %s not fully consumed: %s distinct states for %d lines\n%s' % (sh, m.group(2), nlines, text[-2000:]))
